@@ -12,6 +12,8 @@ func VerifC19Drain() {
 	vrf.ResetGates()
 	st := &vrfStore{boxes: map[string][]*vrfMsg{}}
 	st.boxes["box"] = []*vrfMsg{{mailbox: "box", id: "ida", size: 3, src: []byte("x\r\n")}}
+	// the store may be slow to apply a deletion (held until the harness has looked at Drain)
+	st.onRemove = func() { vrf.Gate("applyDelete") }
 	srv, err := NewServer(config.POP3{Domain: "inbucket.local", Timeout: 5}, st)
 	if err != nil {
 		return
@@ -39,15 +41,28 @@ func VerifC19Drain() {
 	ctx.Cancel()
 	lis.Close()
 	vrf.Quiesce()
+	drainReturned, drainedEarly := false, false
+	helperDone := make(chan bool, 1)
 	go func() {
 		vrf.Quiesce()
 		vrf.Open("sessionStart")
 		vrf.Open("beforeQuit")
+		vrf.Quiesce()
+		// the session now sits in the store applying its deletion (if that is held): Drain must
+		// still be waiting
+		drainedEarly = drainReturned && len(st.removed) == 0
+		vrf.Open("applyDelete")
+		helperDone <- true
 	}()
 	srv.Drain()
+	drainReturned = true
+	<-helperDone
+	vrf.Quiesce()
+	vrf.Assert("drain-waits-for-pending-deletions", !drainedEarly)
 	vrf.Cover("drain-returned")
 	vrf.CoverIf("schedule-session-held-at-start", vrf.Bool("gate_sessionStart"))
 	vrf.CoverIf("schedule-session-held-before-quit", vrf.Bool("gate_beforeQuit"))
+	vrf.CoverIf("schedule-store-slow-to-delete", vrf.Bool("gate_applyDelete"))
 	vrf.Assert("drain-returns-only-after-sessions-ended", sc.Closed)
 	vrf.Assert("pending-deletes-applied-on-quit", len(st.removed) == 1)
 	vrf.Assert("nothing-accepted-after-close", lis.Accepted == 1)
